@@ -186,7 +186,7 @@ Proof.
 Qed.
 
 (* ---------------------------------------------------------------- what Valid says about the main chain *)
-Record mc_facts (s : store) (tip : N) (t g : row) : Prop := {
+Record mc_facts (s : store) (mc : list row) (tip : N) (t g : row) : Prop := {
   mf_inv : Inv s tip;
   mf_tipB : tipB s = Some t;
   mf_mc : mc = rev (chain s tip);
@@ -213,32 +213,61 @@ Proof.
   - destruct Hr as [<-|Hr]; [exact Hz| apply IH; exact Hr].
 Qed.
 
-Lemma valid_mc s : Valid s -> exists tip t g, mc_facts s mc tip t g.
+(* everything below needs only the label invariant Inv (every history, zero-work headers included);
+   mc is the chain of the invariant's tip, genesis first *)
+Lemma inv_mc s tip : Inv s tip -> exists t g, mc_facts s (rev (chain s tip)) tip t g /\ id t = tip.
 Proof.
-  intros (tip & HI2). pose proof (spec_tip_inv2 s tip HI2) as Hst. destruct HI2 as [HI Hb].
-  pose proof HI as (Hwf & (t & Ht & Ho) & Hl).
+  intros HI. pose proof HI as (Hwf & (t & Ht & Ho) & Hl).
   destruct (by_hash_chain s tip (wf_nodup s Hwf) t Ht) as [rest Hc].
   pose proof (chain_desc s Hwf rest tip t Hc Ho) as Hd.
   destruct (desc_rev _ _ Hd) as [Hasc Hlen].
   destruct (wf_last s Hwf) as (pre & g & Es & Hg).
   destruct (chain_connected_nonempty_last s Hwf tip t rest Hc Ho) as (g' & Hg1 & _ & Hg2).
   assert (Eg: g' = g). { rewrite <- Hg2, Es. apply last_last. } rewrite Eg in Hg1. clear Hg2.
-  assert (Hmc: mc = rev (chain s tip)). { unfold main_chain. rewrite Hst. apply orev_rev. }
-  exists tip, t, g. constructor.
+  exists t, g. split; [|apply (by_hash_in _ _ _ Ht)]. constructor.
   - exact HI.
   - rewrite (tipB_is_tip s tip HI). exact Ht.
-  - exact Hmc.
-  - rewrite Hmc, orev_rev, filter_rev', (L_rows_are_chain s tip HI). reflexivity.
-  - rewrite Hmc, Hc. exact Hasc.
-  - rewrite Hmc. apply (chain_linked_rev s Hwf _ tip eq_refl).
-  - rewrite Hmc, Hc, rev_length. exact Hlen.
-  - rewrite Hmc, Hc. cbn [rev]. rewrite nth_error_app2; rewrite rev_length; cbn [length] in Hlen.
+  - reflexivity.
+  - rewrite orev_rev, filter_rev', (L_rows_are_chain s tip HI). reflexivity.
+  - rewrite Hc. exact Hasc.
+  - apply (chain_linked_rev s Hwf _ tip eq_refl).
+  - rewrite Hc, rev_length. exact Hlen.
+  - rewrite Hc. cbn [rev]. rewrite nth_error_app2; rewrite rev_length; cbn [length] in Hlen.
     + replace (Z.to_nat (height t) - length rest)%nat with Datatypes.O by lia. reflexivity.
     + lia.
-  - rewrite Hmc, Hc.
+  - rewrite Hc.
     assert (Hne: t :: rest <> []) by discriminate.
     rewrite (app_removelast_last t Hne), Hg1, rev_app_distr. reflexivity.
   - unfold genesis_id. rewrite orev_rev, Es, rev_app_distr. reflexivity.
+Qed.
+
+(* the chain of the reported tip is the chain of the invariant's tip = the rows labelled LONGEST_CHAIN *)
+Lemma tip_chain_inv s tip : Inv s tip -> tip_chain s = rev (chain s tip) /\ tip_chain s = filter isL (orev s).
+Proof.
+  intros HI. destruct (inv_mc s tip HI) as (t & g & F & Hid).
+  assert (E: tip_chain s = rev (chain s tip)).
+  { unfold tip_chain. rewrite (mf_tipB _ _ _ _ _ F), Hid. apply orev_rev. }
+  split; [exact E|]. rewrite E. symmetry. exact (mf_L _ _ _ _ _ F).
+Qed.
+
+Lemma inv_tip_mc s : (exists tip, Inv s tip) -> exists tip t g, mc_facts s (tip_chain s) tip t g.
+Proof.
+  intros (tip & HI). destruct (inv_mc s tip HI) as (t & g & F & _). exists tip, t, g.
+  rewrite (proj1 (tip_chain_inv s tip HI)). exact F.
+Qed.
+
+(* for positive-work histories (Valid) it is also the greatest-cumulative-work chain of the specification *)
+Lemma main_chain_valid s tip : Inv2 s tip -> main_chain s = rev (chain s tip) /\ tip_chain s = main_chain s.
+Proof.
+  intros HI2. pose proof (spec_tip_inv2 s tip HI2) as Hst.
+  assert (E: main_chain s = rev (chain s tip)) by (unfold main_chain; rewrite Hst; apply orev_rev).
+  split; [exact E|]. rewrite E. apply (tip_chain_inv s tip (proj1 HI2)).
+Qed.
+
+Lemma valid_mc s : Valid s -> exists tip t g, mc_facts s (main_chain s) tip t g.
+Proof.
+  intros (tip & HI2). destruct (inv_mc s tip (proj1 HI2)) as (t & g & F & _). exists tip, t, g.
+  rewrite (proj1 (main_chain_valid s tip HI2)). exact F.
 Qed.
 
 Lemma mc_in s mc tip t g : mc_facts s mc tip t g -> forall r, In r (mc) <-> In r s /\ st r = Longest.
@@ -328,9 +357,9 @@ Proof.
     rewrite (IH (S i) (hs - gap i) v ltac:(lia) Hv ltac:(lia)). cbn. rewrite Hid. reflexivity.
 Qed.
 
-Theorem latest_locator_spec s : Valid s -> latest_locator s = Some (spec_locator_mc mc).
+Lemma latest_locator_mc s mc tip t g : mc_facts s mc tip t g -> latest_locator s = Some (spec_locator_mc mc).
 Proof.
-  intros HV. destruct (valid_mc s HV) as (tip & t & g & F).
+  intros F.
   pose proof (mc_height_pos _ _ _ _ _ F) as Hp. pose proof (mf_len _ _ _ _ _ F) as Hlen.
   unfold latest_locator, spec_locator, tip_height. rewrite (mf_tipB _ _ _ _ _ F).
   replace (S (Z.to_nat (height t))) with (length (mc)) by lia.
@@ -392,7 +421,7 @@ Proof. induction l as [|a l IH]; [reflexivity|]. destruct l as [|b l]; [reflexiv
 (* C13, first half: the locator starts at the tip, ends at genesis, contains only longest-chain hashes in
    strictly descending height, steps back one block at a time for the first entries and then doubles the step;
    the loop terminates within the fuel (Some). *)
-Theorem locator_shape_thm s : Valid s ->
+Lemma locator_shape_mc s mc tip t0 g : mc_facts s mc tip t0 g ->
   exists t hs,
     tipB s = Some t /\
     latest_locator s = Some (map (at_height_mc mc) hs) /\                                  (* fuel suffices *)
@@ -402,10 +431,10 @@ Theorem locator_shape_thm s : Valid s ->
     (forall pre a b post, hs = pre ++ a :: b :: post -> b < a) /\                        (* strictly descending *)
     (forall h, In h hs -> exists r, In r s /\ st r = Longest /\ height r = h /\ id r = at_height_mc mc h).
 Proof.
-  intros HV. destruct (valid_mc s HV) as (tip & t & g & F).
+  intros F. set (t := t0) in *.
   pose proof (mc_height_pos _ _ _ _ _ F) as Hp. pose proof (mf_len _ _ _ _ _ F) as Hlen.
   set (hs := spec_heights (length (mc)) Datatypes.O ((Z.of_nat (length mc) - 1))).
-  assert (Hth: (Z.of_nat (length mc) - 1) = height t) by (unfold tip_height; lia).
+  assert (Hth: (Z.of_nat (length mc) - 1) = height t) by lia.
   destruct (spec_heights_shape (length (mc)) Datatypes.O ((Z.of_nat (length mc) - 1)) ltac:(lia)) as [Hs Hh].
   fold hs in Hs, Hh. rewrite Hth in Hh. replace (Z.max 0 (height t)) with (height t) in Hh by lia.
   assert (Hne: hs <> []) by (intro E; rewrite E in Hs; exact Hs).
@@ -413,7 +442,7 @@ Proof.
   { unfold at_height_mc. rewrite (mf_tip _ _ _ _ _ F). reflexivity. }
   assert (Hgen: at_height_mc mc 0 = genesis_id s).
   { unfold at_height_mc. cbn [Z.to_nat]. rewrite (mf_gen _ _ _ _ _ F). exact (mf_gid _ _ _ _ _ F). }
-  exists t, hs. split; [exact (mf_tipB _ _ _ _ _ F)|]. split; [exact (latest_locator_spec s HV)|].
+  exists t, hs. split; [exact (mf_tipB _ _ _ _ _ F)|]. split; [exact (latest_locator_mc _ _ _ _ _ F)|].
   split; [destruct hs as [|h0 hs']; [contradiction| cbn in *; subst h0; exact Htip]|].
   split; [exact Hh|].
   split.
@@ -629,10 +658,10 @@ Proof.
 Qed.
 
 (* C13, second half, which headers: for ALL locators and stop hashes the answer is the specification's *)
-Theorem locate_matches_spec s locs stop : Valid s ->
+Lemma locate_matches_mc s mc tip t g locs stop : mc_facts s mc tip t g ->
   answer (locate s locs stop) = spec_locate_mc mc locs stop.
 Proof.
-  intros HV. destruct (valid_mc s HV) as (tip & t & g & F).
+  intros F.
   pose proof (anchor_bounds _ _ _ _ _ locs F) as Ha. pose proof cap_pos as Hc.
   rewrite (locate_seg _ _ _ _ _ _ stop F), (spec_locate_seg _ _ _ _ _ _ stop F), (stop_height_mc _ _ _ _ _ stop F).
   cbn zeta. set (a := anchor_mc mc locs) in *.
@@ -697,13 +726,13 @@ Qed.
 
 (* C13, second half, safety: WHATEVER the locator and the stop hash (also in the two corner cases), what is
    sent is a parent-linked ascending run of at most `cap` longest-chain headers above the start. *)
-Theorem locate_safe_thm s locs stop : Valid s ->
+Lemma locate_safe_mc s mc tip t g locs stop : mc_facts s mc tip t g ->
   let l := answer (locate s locs stop) in
   (length l <= Z.to_nat cap)%nat /\ linked l /\
   (forall r, In r l -> In r s /\ st r = Longest /\ anchor_mc mc locs < height r) /\
   l = seg mc (anchor_mc mc locs + 1) (length l).
 Proof.
-  intros HV. destruct (valid_mc s HV) as (tip & t & g & F). cbn zeta.
+  intros F. cbn zeta.
   pose proof (anchor_bounds _ _ _ _ _ locs F) as Ha. rewrite (locate_seg _ _ _ _ _ _ stop F). cbn zeta.
   assert (Hnil: (length (@nil row) <= Z.to_nat cap)%nat /\ linked [] /\
                 (forall r, In r [] -> In r s /\ st r = Longest /\ anchor_mc mc locs < height r) /\
@@ -718,7 +747,7 @@ Proof.
 Qed.
 
 (* ---- what the specification means (sanity of the declarative side) ---- *)
-Theorem spec_locate_meaning s locs stop : Valid s ->
+Lemma spec_locate_meaning_mc s mc tip t g locs stop : mc_facts s mc tip t g ->
   let a := anchor_mc mc locs in let l := spec_locate_mc mc locs stop in
   (* the start is the highest locator entry on the main chain, height 0 if none is *)
   is_anchor (mc) (fun r => memN (id r) locs) a /\
@@ -733,7 +762,7 @@ Theorem spec_locate_meaning s locs stop : Valid s ->
   ((forall x, In x (mc) -> id x <> stop) ->
      Z.of_nat (length l) = Z.min cap ((Z.of_nat (length mc) - 1) - a)).
 Proof.
-  intros HV. destruct (valid_mc s HV) as (tip & t & g & F). cbn zeta.
+  intros F. cbn zeta.
   pose proof (anchor_bounds _ _ _ _ _ locs F) as Ha. pose proof cap_pos as Hc. pose proof (mf_len _ _ _ _ _ F) as Hlen.
   split. { unfold anchor_mc. exact (fold_left_anchor (fun r => memN (id r) locs) (mc) 0 0 (mf_asc _ _ _ _ _ F)). }
   rewrite (spec_locate_seg _ _ _ _ _ locs stop F). cbn zeta. set (a := anchor_mc mc locs) in *.
@@ -876,16 +905,16 @@ Proof.
     replace (H - 11 + 2 - 1) with (H - 10) by lia. lia.
 Qed.
 
-Theorem locator_length_thm s t : Valid s -> tipB s = Some t -> height t < 2 ^ 31 ->
+Lemma locator_length_mc s mc tip t0 g t : mc_facts s mc tip t0 g -> tipB s = Some t -> height t < 2 ^ 31 ->
   exists l, latest_locator s = Some l /\ Z.of_nat (length l) = max_entries (height t) /\ max_entries (height t) <= 43.
 Proof.
-  intros HV Ht Hlt. destruct (valid_mc s HV) as (tip & t' & g & F).
-  rewrite (mf_tipB _ _ _ _ _ F) in Ht. inversion Ht; subst t'.
+  intros F Ht Hlt.
+  rewrite (mf_tipB _ _ _ _ _ F) in Ht. inversion Ht; subst t0.
   pose proof (mc_height_pos _ _ _ _ _ F) as Hp. pose proof (mf_len _ _ _ _ _ F) as Hlen.
-  exists (spec_locator_mc mc). split; [exact (latest_locator_spec s HV)|].
-  assert (Hth: (Z.of_nat (length mc) - 1) = height t) by (unfold tip_height; lia).
+  exists (spec_locator_mc mc). split; [exact (latest_locator_mc _ _ _ _ _ F)|].
+  assert (Hth: (Z.of_nat (length mc) - 1) = height t) by lia.
   assert (E: Z.of_nat (length (spec_locator_mc mc)) = max_entries (height t)).
-  { unfold spec_locator. rewrite map_length, Hth. apply max_entries_exact; lia. }
+  { unfold spec_locator_mc. rewrite map_length, Hth. apply max_entries_exact; lia. }
   split; [exact E|]. unfold max_entries. destruct (Z.leb_spec (height t) 12).
   - rewrite (Z.mod_small (height t) 256) by lia. rewrite Z.mod_small by lia. lia.
   - rewrite (Z.mod_small (height t) (2 ^ 32)) by lia. rewrite (Z.mod_small (height t - 10) (2 ^ 32)) by lia.
